@@ -18,6 +18,8 @@
 (*               are applied to scalars only, as in every graph einx traces)*)
 (*   lam         (lambda z: f(z, a))(b)    (nested graph closing over a)    *)
 (*   view, rev   a.T, a[::-1]              (aliases of a's buffer)          *)
+(*   cut         a[0::-1]                  (alias; slice with literal 0)    *)
+(*   gen         z() -> fresh buffer that does not depend on the inputs     *)
 (*   cast, assert  transparent: the same value                             *)
 (*   inpl        h(a, b) updates a's buffer in place; the result IS a       *)
 (*               d # 0: value d is declared (tracer.depend_on) to be read   *)
@@ -38,8 +40,8 @@ EXTENDS Naturals, Sequences, FiniteSets, TLC, Json
 
 CONSTANTS NIn, NNodes, Kinds, MaxOuts, Shard, NShards
 
-Unary   == {"view", "rev", "cast", "assert", "dim"}
-Fresh   == {"call", "cali", "op", "lam", "dim"}
+Unary   == {"view", "rev", "cast", "assert", "dim", "cut"}
+Fresh   == {"call", "cali", "op", "lam", "dim", "gen"}
 Mut     == {"inpl", "upd", "set"}
 Binary  == Fresh \cup Mut
 
@@ -56,19 +58,35 @@ Init == nodes = <<>> /\ outs = <<>> /\ done = FALSE
 (* two sorts of values, as in the graphs einx traces: tensors (mutable buffers: inputs, results of calls, their views) and
    scalars (immutable: a dimension read off a tensor, operator applications on scalars).  Operators are applied to scalars
    only and in-place nodes update tensors only. *)
-Sort(ns, r) == IF r <= NIn THEN "T" ELSE IF ns[r - NIn].k \in {"dim", "op"} THEN "S" ELSE "T"
-TRefs(i) == {r \in Refs(i) : Sort(nodes, r) = "T"}
+(* A third sort "G": buffers that do not depend on the graph inputs (gen = a call without operands, and everything computed
+   from such values only).  The generator emits them at module level, outside the function; they are shared by all
+   invocations, so a well-formed graph never updates them in place. *)
+RECURSIVE Sort(_, _)
+Sort(ns, r) ==
+  IF r <= NIn THEN "T"
+  ELSE LET n == ns[r - NIn] IN
+       CASE n.k \in {"dim", "op", "cut"}                -> "S"
+         [] n.k = "gen"                                 -> "G"
+         [] n.k \in {"view", "rev", "cast", "assert"}   -> Sort(ns, n.a)
+         [] n.k \in {"call", "cali", "lam"}             -> IF Sort(ns, n.a) = "G" /\ Sort(ns, n.b) = "G" THEN "G" ELSE "T"
+         [] OTHER                                       -> "T"
+TRefs(i) == {r \in Refs(i) : Sort(nodes, r) = "T"}                 \* may be updated in place
+BRefs(i) == {r \in Refs(i) : Sort(nodes, r) \in {"T", "G"}}        \* buffers
 SRefs(i) == {r \in Refs(i) : Sort(nodes, r) = "S"}
 
 AddNode ==
   /\ ~done /\ Len(nodes) < NNodes
   /\ LET i == Len(nodes) + 1 IN
      \E k \in Kinds :
+       \/ /\ k = "gen"
+          /\ nodes' = Append(nodes, Node(k, 0, 0, 0))
        \/ /\ k \in Unary
-          /\ \E a \in TRefs(i) : nodes' = Append(nodes, Node(k, a, 0, 0))
+          /\ \E a \in BRefs(i) : nodes' = Append(nodes, Node(k, a, 0, 0))
        \/ /\ k = "op"
           /\ \E a \in SRefs(i), b \in SRefs(i) : nodes' = Append(nodes, Node(k, a, b, 0))
-       \/ /\ k \in {"call", "cali", "lam", "upd", "set"}
+       \/ /\ k \in {"call", "cali", "lam"}
+          /\ \E a \in BRefs(i), b \in Refs(i) : nodes' = Append(nodes, Node(k, a, b, 0))
+       \/ /\ k \in {"upd", "set"}
           /\ \E a \in TRefs(i), b \in Refs(i) : nodes' = Append(nodes, Node(k, a, b, 0))
        \/ /\ k = "inpl"
           /\ \E a \in TRefs(i), b \in Refs(i), d \in {0} \cup NodeRefs(i) :
@@ -77,7 +95,7 @@ AddNode ==
   /\ UNCHANGED <<outs, done>>
 
 (* a node is used when it is an operand of a later node or an output; being a declared dependency is not a use *)
-Used(ns) == UNION {{ns[i].a, ns[i].b} : i \in DOMAIN ns}
+Used(ns) == UNION {{ns[i].a, ns[i].b} : i \in DOMAIN ns} \ {0}
 Sinks(ns) == {NIn + i : i \in DOMAIN ns} \ Used(ns)
 
 Finish ==
@@ -104,12 +122,12 @@ Read(S, r) == IF S.val[r].w = <<>> THEN S.mem[S.val[r].b] ELSE Tm("view", S.val[
 
 ExecNode(S, ns, i) ==
   LET n == ns[i]  r == NIn + i IN
-  CASE n.k = "dim" ->       \* a.shape[0]: does not read the contents
-         [val |-> [S.val EXCEPT ![r] = [b |-> r, w |-> <<>>]], mem |-> [S.mem EXCEPT ![r] = Tm("dim", <<>>, <<>>)]]
+  CASE n.k \in {"dim", "gen"} ->       \* a.shape[0] does not read the contents; gen() has no operands
+         [val |-> [S.val EXCEPT ![r] = [b |-> r, w |-> <<>>]], mem |-> [S.mem EXCEPT ![r] = Tm(n.k, <<>>, <<>>)]]
     [] n.k \in Fresh ->
          [val |-> [S.val EXCEPT ![r] = [b |-> r, w |-> <<>>]],
           mem |-> [S.mem EXCEPT ![r] = Tm(n.k, <<>>, <<Read(S, n.a), Read(S, n.b)>>)]]
-    [] n.k \in {"view", "rev"} ->
+    [] n.k \in {"view", "rev", "cut"} ->
          [val |-> [S.val EXCEPT ![r] = [b |-> S.val[n.a].b, w |-> Append(S.val[n.a].w, n.k)]], mem |-> S.mem]
     [] n.k \in {"cast", "assert"} ->
          [val |-> [S.val EXCEPT ![r] = S.val[n.a]], mem |-> S.mem]
